@@ -283,8 +283,10 @@ class Interp:
 
     def _sub(self, r):
         m = self.ev(r[1])
-        rows = m[_sl(r[2], r[3], None)]
-        out = [row[_sl(r[4], r[5], None)] for row in rows]
+        rs = r[6] if len(r) > 6 else None
+        cs = r[7] if len(r) > 7 else None
+        rows = m[_sl(r[2], r[3], rs)]
+        out = [row[_sl(r[4], r[5], cs)] for row in rows]
         if not out or not out[0]:
             raise ShapeError("empty")
         return out
